@@ -393,7 +393,7 @@ def gen_mem(rng, tier, idx):
     backend = rng.choice(["okapi", "cosine"])
     fam = rng.choice(["32", "64"])
     r = rng.random()
-    if tier == "thorough" and r < 0.005:
+    if tier == "thorough" and r < 0.0025:
         vocab = "large"
     elif r < 0.45:
         vocab = "medium"
